@@ -8,6 +8,9 @@ Ltac solve_st J ext calls :=
   | |- J ?t =>
       first [ assumption
             | calls tt; solve_st J ext calls
+            | let b := strip_r_ne t in
+              tryif constr_eq b t then fail
+              else (eapply (ext b); [ solve_st J ext calls | reflexivity .. ])
             | let b := strip_r t in
               tryif constr_eq b t then fail
               else (eapply (ext b); [ solve_st J ext calls | reflexivity .. ]) ]
@@ -89,12 +92,31 @@ Proof.
   destruct (ins _ _ _). jq.
 Qed.
 
+Lemma JQ_fr_verify now s : JQ s -> JQ (fst (fr_verify FS cksum now s)).
+Proof. intros H. unfold fr_verify. pass_q. Qed.
+Lemma JQ_fr_store s : JQ s -> JQ (fr_store FS fs_write_file s).
+Proof. intros H. unfold fr_store. pass_q. Qed.
+Lemma JQ_fr_rejection now s : JQ s -> JQ (fst (fr_rejection now s)).
+Proof. intros H. unfold fr_rejection. destruct (r_fstat s); cbn [fst]; try exact H. jq. Qed.
+Lemma JQ_fr_requests s : JQ s -> JQ (fr_requests FS fs_exec resp_fail not_performed s).
+Proof. intros H. unfold fr_requests. destruct (run_requests _ _ _ _ _ _ _). jq. Qed.
+
 Lemma JQ_finalize now s : JQ s -> JQ (finalize_receive now s).
 Proof.
   intros H. unfold Recv.finalize_receive.
-  repeat (first [destr_pair_keep | destr_inner]; cbn [fst snd]); try jq.
+  set (s0 := set_r_dc _ s). assert (H0 : JQ s0) by (unfold s0; jq). clearbody s0. clear H.
+  assert (H1 : JQ (fst (if is_file_transfer s0
+                        then let '(s1, go) := fr_verify FS cksum now s0 in
+                             if go then (fr_store FS fs_write_file s1, true) else (s1, false)
+                        else (set_r_fstat FUnreported s0, true)))).
+  { destruct (is_file_transfer s0); cbn [fst]; [|jq].
+    pose proof (JQ_fr_verify now s0 H0) as Hv. destruct (fr_verify FS cksum now s0) as [s1 go]. cbn [fst] in Hv.
+    destruct go; cbn [fst]; [apply JQ_fr_store|]; exact Hv. }
+  destruct (if is_file_transfer s0 then _ else _) as [s2 go2]. cbn [fst] in H1.
+  destruct go2; [|exact H1].
+  pose proof (JQ_fr_rejection now s2 H1) as H2. destruct (fr_rejection now s2) as [s3 go3]. cbn [fst] in H2.
+  destruct go3; [apply JQ_fr_requests|]; exact H2.
 Qed.
-
 
 Lemma JQ_check_finished now s : JQ s -> JQ (check_finished now s).
 Proof.
@@ -102,46 +124,35 @@ Proof.
   eapply JQ_ext; [apply (JQ_finalize now s H)|reflexivity].
 Qed.
 
+Ltac jq2_calls _ :=
+  lazymatch goal with
+  | |- JQ (check_file_size _ _ _) => apply JQ_check_file_size
+  | |- JQ (store_file_data _ _ _) => apply JQ_store
+  | |- JQ (check_finished _ _) => apply JQ_check_finished
+  | |- JQ (finalize_receive _ _) => apply JQ_finalize
+  | _ => jq_calls tt
+  end.
+Ltac jq2 := solve_st JQ JQ_ext jq2_calls.
+Ltac pass_q2 := repeat (first [destr_pair_keep | destr_inner]; cbn [fst snd]); try jq2.
+
 Lemma JQ_filedata_acked now o d s : JQ s ->
   JQ (pdu_filedata_acked FS fs_write_file fs_exec resp_fail not_performed cksum now o d s).
 Proof.
   intros H. unfold pdu_filedata_acked. destr_inner; [exact H|].
-  apply JQ_check_finished.
-  pose proof (JQ_store o d s H) as H1.
-  unfold c_timeout_occurred. repeat (first [destr_pair_keep | destr_inner]; cbn [fst snd]);
-    solve_st JQ JQ_ext ltac:(fun _ => first [exact H1 | jq_calls tt]).
+  apply JQ_check_finished. unfold c_timeout_occurred. pass_q2.
 Qed.
 
 Lemma JQ_eof_acked now e s : JQ s ->
   JQ (pdu_eof_acked FS fs_write_file fs_exec resp_fail not_performed cksum now e s).
-Proof.
-  intros H. unfold pdu_eof_acked. destr_inner; [jq|].
-  destr_inner; [|jq].
-  match goal with |- context [check_finished now ?x] =>
-    assert (H1 : JQ (check_finished now x)) by (apply JQ_check_finished; eapply JQ_ext;
-      [apply JQ_check_file_size; jq | reflexivity]);
-    remember (check_finished now x) as s1 eqn:E1; clear E1 end.
-  repeat (destr_inner; cbn [fst snd]); jq.
-Qed.
+Proof. intros H. unfold pdu_eof_acked. pass_q2. Qed.
 
 Lemma JQ_metadata_acked now m s : JQ s ->
   JQ (pdu_metadata_acked FS fs_write_file fs_exec resp_fail not_performed cksum now m s).
-Proof.
-  intros H. unfold pdu_metadata_acked, set_metadata. destr_inner; [exact H|].
-  apply JQ_check_finished. jq.
-Qed.
+Proof. intros H. unfold pdu_metadata_acked, set_metadata. pass_q2. Qed.
 
 Lemma JQ_eof_unacked now e s : JQ s ->
   JQ (pdu_eof_unacked FS fs_write_file fs_exec resp_fail not_performed cksum now e s).
-Proof.
-  intros H. unfold pdu_eof_unacked. destr_inner; [exact H|].
-  destr_inner; [|jq].
-  match goal with |- context [finalize_receive now ?x] =>
-    assert (H1 : JQ (finalize_receive now x)) by (apply JQ_finalize; eapply JQ_ext;
-      [apply JQ_check_file_size; jq | reflexivity]);
-    remember (finalize_receive now x) as s1 eqn:E1; clear E1 end.
-  repeat (destr_inner; cbn [fst snd]); jq.
-Qed.
+Proof. intros H. unfold pdu_eof_unacked. pass_q2. Qed.
 
 (* processing a received PDU never transmits anything and never declares a limit fault *)
 Lemma JQ_process_pdu now p s : JQ s -> JQ (fst (process_pdu now p s)).
@@ -153,8 +164,7 @@ Proof.
     first [ apply JQ_filedata_acked | apply JQ_eof_acked | apply JQ_metadata_acked | apply JQ_eof_unacked | idtac ];
     try exact H0;
     unfold pdu_ack_acked, pdu_ack_unacked, pdu_metadata_unacked, pdu_filedata_unacked, set_metadata;
-    repeat (destr_inner; cbn [fst snd]); try exact H0; try jq.
-  all: apply JQ_store; exact H0.
+    repeat (destr_inner; cbn [fst snd]); try exact H0; try jq2.
 Qed.
 
 (* C19 at the level of one loop iteration: while the transaction is suspended, whatever the
@@ -165,7 +175,7 @@ Theorem suspended_silent now o s : suspended s = true ->
   Forall quiet (r_out (fst (rstep now o s))).
 Proof.
   intros Hs. unfold has_pdu_to_send, until_timeout. rewrite Hs. splits; try reflexivity.
-  unfold Recv.rstep.
+  change (JQ (fst (rstep now o s))). unfold Recv.rstep.
   assert (H0 : JQ (set_r_out [] s)) by (unfold JQ; cbn; constructor).
   assert (Hs0 : suspended (set_r_out [] s) = true) by exact Hs.
   destruct o; cbn [fst].
@@ -194,6 +204,7 @@ Proof. intros (_ & _ & _ & (E1 & E2 & _)) H. eapply D20_ext; eassumption. Qed.
 Lemma D20_store off d s : D20 s -> D20 (store_file_data off d s).
 Proof.
   intros (Hi & Hr). unfold store_file_data. destruct (is_nil d) eqn:En; [split; assumption|].
+  cbn [r_segs set_r_staged].
   destruct (ins off (off + N.of_nat (length d)) (r_segs s)) as [v n] eqn:E.
   assert (Hlt : off < off + N.of_nat (length d)).
   { destruct d; [discriminate|]. cbn [length]. lia. }
@@ -217,44 +228,49 @@ Ltac pass_d20 := repeat (first [destr_pair_keep | destr_inner]; cbn [fst snd]); 
 Lemma D20_check_file_size now size s : D20 s -> D20 (check_file_size now size s).
 Proof. intros H. unfold check_file_size. pass_d20. Qed.
 Lemma D20_finalize now s : D20 s -> D20 (finalize_receive now s).
-Proof. intros H. unfold Recv.finalize_receive. pass_d20. Qed.
+Proof.
+  intros H. unfold Recv.finalize_receive.
+  set (s0 := set_r_dc _ s). assert (H0 : D20 s0) by (unfold s0; d20). clearbody s0. clear H.
+  assert (H1 : D20 (fst (if is_file_transfer s0
+                        then let '(s1, go) := fr_verify FS cksum now s0 in
+                             if go then (fr_store FS fs_write_file s1, true) else (s1, false)
+                        else (set_r_fstat FUnreported s0, true)))).
+  { destruct (is_file_transfer s0); cbn [fst]; [|d20].
+    assert (Hv : D20 (fst (fr_verify FS cksum now s0))) by (unfold fr_verify; pass_d20).
+    destruct (fr_verify FS cksum now s0) as [s1 go]. cbn [fst] in Hv.
+    destruct go; cbn [fst]; [|exact Hv]. unfold fr_store. pass_d20. }
+  destruct (if is_file_transfer s0 then _ else _) as [s2 go2]. cbn [fst] in H1.
+  destruct go2; [|exact H1].
+  assert (H2 : D20 (fst (fr_rejection now s2))).
+  { unfold fr_rejection. destruct (r_fstat s2); cbn [fst]; try exact H1. d20. }
+  destruct (fr_rejection now s2) as [s3 go3]. cbn [fst] in H2.
+  destruct go3; [|exact H2]. unfold fr_requests. destruct (run_requests _ _ _ _ _ _ _). d20.
+Qed.
 Lemma D20_check_finished now s : D20 s -> D20 (check_finished now s).
 Proof.
   intros H. unfold Recv.check_finished. destr_inner; [|exact H].
   eapply D20_ext; [apply (D20_finalize now s H)|reflexivity|reflexivity].
 Qed.
 
+Ltac d20b_calls _ :=
+  lazymatch goal with
+  | |- D20 (check_file_size _ _ _) => apply D20_check_file_size
+  | |- D20 (check_finished _ _) => apply D20_check_finished
+  | |- D20 (finalize_receive _ _) => apply D20_finalize
+  | _ => d20_calls tt
+  end.
+Ltac d20b := solve_st D20 D20_ext d20b_calls.
+Ltac pass_d20b := repeat (first [destr_pair_keep | destr_inner]; cbn [fst snd]); try d20b.
+
 Lemma D20_process_pdu now p s : D20 s -> D20 (fst (process_pdu now p s)).
 Proof.
   intros H. unfold Recv.process_pdu.
   set (s0 := if suspended s then s else upd_inact (c_reset now) s).
   assert (H0 : D20 s0) by (unfold s0; destruct (suspended s); d20). clearbody s0. clear H.
-  destruct (cfg_mode (r_cfg s0)); destruct p; cbn [fst]; try exact H0.
-  - (* file data, acknowledged *)
-    unfold pdu_filedata_acked. destr_inner; [exact H0|]. apply D20_check_finished.
-    pose proof (D20_store offset data s0 H0) as H1. unfold c_timeout_occurred.
-    repeat (first [destr_pair_keep | destr_inner]; cbn [fst snd]);
-      solve_st D20 D20_ext ltac:(fun _ => first [exact H1 | d20_calls tt]).
-  - (* EOF, acknowledged *)
-    unfold pdu_eof_acked. destr_inner; [d20|]. destr_inner; [|d20].
-    match goal with |- context [check_finished now ?x] =>
-      assert (H1 : D20 (check_finished now x)) by (apply D20_check_finished; eapply D20_ext;
-        [apply D20_check_file_size; d20 | reflexivity | reflexivity]);
-      remember (check_finished now x) as s1 eqn:E1; clear E1 end.
-    repeat (destr_inner; cbn [fst snd]); d20.
-  - unfold pdu_ack_acked. repeat (destr_inner; cbn [fst snd]); try exact H0; d20.
-  - unfold pdu_metadata_acked, set_metadata. destr_inner; [exact H0|]. apply D20_check_finished. d20.
-  - d20.
-  - unfold pdu_filedata_unacked. destr_inner; [exact H0|]. d20.
-  - (* EOF, unacknowledged *)
-    unfold pdu_eof_unacked. destr_inner; [exact H0|]. destr_inner; [|d20].
-    match goal with |- context [finalize_receive now ?x] =>
-      assert (H1 : D20 (finalize_receive now x)) by (apply D20_finalize; eapply D20_ext;
-        [apply D20_check_file_size; d20 | reflexivity | reflexivity]);
-      remember (finalize_receive now x) as s1 eqn:E1; clear E1 end.
-    repeat (destr_inner; cbn [fst snd]); d20.
-  - unfold pdu_ack_unacked. repeat (destr_inner; cbn [fst snd]); try exact H0; d20.
-  - unfold pdu_metadata_unacked, set_metadata. destr_inner; [exact H0|]. d20.
+  destruct (cfg_mode (r_cfg s0)); destruct p; cbn [fst]; try exact H0;
+    unfold pdu_filedata_acked, pdu_eof_acked, pdu_ack_acked, pdu_metadata_acked, pdu_filedata_unacked,
+           pdu_eof_unacked, pdu_ack_unacked, pdu_metadata_unacked, set_metadata, c_timeout_occurred;
+    pass_d20b.
 Qed.
 
 Theorem D20_rstep now o s : D20 s -> D20 (fst (rstep now o s)).
